@@ -51,6 +51,7 @@ func main() {
 	out := fs.String("out", "", "write JSON result here (default stdout)")
 	alloc := fs.Int("alloc-bound", 8, "largest symbolic allocation size explored")
 	allV := fs.Bool("all-violations", false, "report every violating path (no de-duplication by label)")
+	tracePath := fs.String("trace-decisions", "", "JSON file with a decisions array: run only that path and print a call trace to stderr")
 	fs.Parse(os.Args[2:])
 
 	ro := &runOutput{Repo: *repo, Package: *pkg}
@@ -87,6 +88,22 @@ func main() {
 			workers: *workers, maxPaths: *maxPaths, maxSteps: *maxSteps, loopCap: *loopCap,
 			timeoutMs: *qTimeout, known: km, params: pm, samples: *samples, solverBin: *solver,
 			deadline: time.Now().Add(*timeout), allViolations: *allV,
+		}
+		if *tracePath != "" {
+			data, err := os.ReadFile(*tracePath)
+			if err != nil {
+				fmt.Fprintln(os.Stderr, err)
+				os.Exit(3)
+			}
+			var doc struct {
+				Decisions []dec `json:"decisions"`
+			}
+			if err := json.Unmarshal(data, &doc); err != nil {
+				fmt.Fprintln(os.Stderr, err)
+				os.Exit(3)
+			}
+			m.traceOne(*pkg, f, cfg, doc.Decisions)
+			continue
 		}
 		ro.Results = append(ro.Results, m.runHarness(*pkg, f, cfg))
 	}
